@@ -96,8 +96,9 @@ class DrillholesGroupTable(ABC):
         for object_, data_dict in self.index_by_drillhole.items():
             data_list: list = []
             no_data_values: list = []
-            for name, info in data_dict.items():
-                if name in names:
+            for name in names:  # columns in the order they are labelled with below
+                if name in data_dict:
+                    info = data_dict[name]
                     data_list.append(
                         self.parent.data[name][info[0] : info[0] + info[1]]
                     )
